@@ -221,8 +221,8 @@ def finish(res, tier, seed, t0):
         cov["exhaustive"] = res.exhaustive
     cov.update(res.extra)
     if res.level == "proof":
-        cov.setdefault("obligations", max(1, res.obligations))
-        cov.setdefault("discharged", max(1, res.obligations) if not viol else 0)
+        cov["obligations"] = max(1, res.obligations)
+        cov["discharged"] = max(1, res.obligations) if not viol else max(0, res.obligations - len(viol))
         cov.setdefault("checker_cmd", "./check %s --tier %s" % (res.prop, tier))
         cov.setdefault("trusted_base", ["sa/ (this analysis engine)",
                                         "CPython ast module"])
